@@ -68,6 +68,7 @@ import io
 import itertools
 import json
 import os
+import random
 import re
 import time
 
@@ -165,6 +166,9 @@ def conc_map(rng, kind):
         if kind == "case":
             a, b = rng.choice(CASE_PAIRS)
             m = {97: ord(a), 98: ord(b), 47: 47, 46: 46}
+        elif kind == "uni":         # every literal becomes a non-ASCII character (multi-byte in UTF-8)
+            x = rng.sample([c for c in LIT_POOL if ord(c) > 127], 4)
+            m = {97: ord(x[0]), 98: ord(x[1]), 47: ord(x[2]) if rng.random() < 0.5 else 47, 46: ord(x[3]) if rng.random() < 0.5 else 46}
         else:
             x = rng.sample(LIT_POOL, 4)
             m = {97: ord(x[0]), 98: ord(x[1]),
@@ -204,7 +208,65 @@ def rand_seps(rng, npat, textual):
 
 # ------------------------------------------------------------------ driving the real code
 
-TEXTUAL = ("text", "lines", "bytes")
+class _Textual:
+    """input forms that go through the deb822 parser.  "legacy:<n>" = a BYTES document (list of bytes lines /
+    binary file object / one bytes string) in which some OTHER line -- a Copyright / Comment field of the
+    header, of the same Files paragraph (before or after its Files line), of a neighbouring Files paragraph
+    or a License text line -- is not valid UTF-8 (Latin-1 / cp1252 bytes), while the Files patterns are
+    UTF-8; <n> seeds where the legacy lines go.  What the legacy line decodes to is unspecified and never
+    looked at (chardet's guess may vary); only matches / find_files_paragraph are judged."""
+
+    def __contains__(self, route):
+        return route in ("text", "lines", "bytes") or route.startswith("legacy:")
+
+
+TEXTUAL = _Textual()
+LEGACY = [b"2003-2005 Adeodato Sim\xf3 <dato@net.com.org.es>", b"\x93quoted\x94 caf\xe9 na\xefve", b"M\xfcller & S\xf8n GmbH, Stra\xdfe 5",
+          b"\xe9", b"Fran\xe7ois \xc9t\xe9 \xa9 1999", b"\xa9 2001 \xc5ke \xd6stlund", b"Jos\xe9 Mar\xeda Garc\xeda-L\xf3pez"]
+
+
+def legacy_document(seed, paras, order, lays):
+    """the document as bytes with legacy-encoded lines placed by a generator seeded with `seed`"""
+    r = random.Random("legacy-%s" % seed)
+    chunks = []
+    placed = 0
+    items = list(order)
+    must = r.randrange(len(items) + 1)       # at least one legacy line somewhere
+    head = HEADER.encode("utf-8")
+    if must == len(items) or r.random() < 0.25:
+        head += b"Comment: " + r.choice(LEGACY) + b"\n"
+        placed += 1
+    chunks.append(head)
+    for pos, it in enumerate(items):
+        force = pos == must
+        if it == "L":
+            if force or r.random() < 0.3:
+                chunks.append(b"License: MIT\n Permission is hereby granted by " + r.choice(LEGACY) + b".\n")
+            else:
+                chunks.append(LICPARA.encode("utf-8"))
+            continue
+        text = files_para_text(paras[it], lays[it])
+        files_line, rest = text.split("\nCopyright: ", 1)
+        files_b = (files_line + "\n").encode("utf-8")
+        how = r.choice(["before", "before", "after", "comment-before", "comment-after"]) if (force or r.random() < 0.5) else "none"
+        lg = r.choice(LEGACY)
+        if how == "before":          # the Copyright field (legacy bytes) listed BEFORE the Files field
+            chunks.append(b"Copyright: " + lg + b"\n" + files_b + b"License: GPL-2+\n")
+        elif how == "after":
+            chunks.append(files_b + b"Copyright: " + lg + b"\nLicense: GPL-2+\n")
+        elif how == "comment-before":
+            chunks.append(b"Comment: " + lg + b"\n" + files_b + b"Copyright: 2024 Someone\nLicense: GPL-2+\n")
+        elif how == "comment-after":
+            chunks.append(files_b + b"Copyright: 2024 Someone\nLicense: GPL-2+\nComment: " + lg + b"\n")
+        else:
+            chunks.append(text.encode("utf-8"))
+    data = b"\n".join(chunks)
+    form = r.choice(["lines", "file", "whole"])
+    if form == "lines":
+        return [ln + b"\n" for ln in data.split(b"\n")]
+    if form == "file":
+        return io.BytesIO(data)
+    return data
 HEADER = "Format: https://www.debian.org/doc/packaging-manuals/copyright-format/1.0/\n"
 LICPARA = "License: MIT\n Permission is hereby granted.\n"
 
@@ -218,6 +280,11 @@ def build_doc(route, paras, order, lays):
     """paras: list of lists of pattern strings; order: sequence of paragraph indexes and 'L'
     (standalone License paragraphs in between). Returns the Copyright object."""
     from debian import copyright as C
+    if route.startswith("legacy:"):
+        import warnings
+        with warnings.catch_warnings():
+            warnings.simplefilter("ignore")
+            return C.Copyright(legacy_document(route[7:], paras, order, lays))
     if route in TEXTUAL:
         parts = [HEADER]
         for it in order:
@@ -672,7 +739,8 @@ def rand_script(rng, nops, big=False):
     """a random history: document + calls, over a per-trace alphabet.  big: size dimension for the parts TLC
     treats structurally -- up to 200 (short) patterns per list, blank-joined lengths far beyond one line,
     hyphenated words; or 100 paragraphs.  What TLC scans character by character stays short."""
-    alpha = rng.sample(LIT_POOL, rng.randint(2, 4)) + rng.sample(["a", "b", "/", "."], 2)
+    alpha = rng.sample(LIT_POOL, rng.randint(2, 4)) + rng.sample(["a", "b", "/", "."], 2) + \
+        rng.sample([c for c in LIT_POOL if ord(c) > 127], 2)
     if big:
         alpha = ["a", "b", "c", "d", "-", "-", "/", "."] + rng.sample(LIT_POOL, 2)
     if rng.random() < 0.3:
@@ -702,7 +770,7 @@ def rand_script(rng, nops, big=False):
     if big:
         npar = rng.choice([99, 100, 101]) if many_paras else rng.choice([1, 1, 2])
     paras = [plist() for _ in range(npar)]
-    route = rng.choice(["prog", "prog-set", "text", "text", "lines", "bytes"])
+    route = rng.choice(["prog", "prog-set", "text", "text", "lines", "bytes", "legacy:%d" % rng.randrange(10 ** 6)])
     if big:
         route = rng.choice(["prog", "prog-set", "prog", "prog-set", "text", "bytes"])
     order = []
@@ -977,9 +1045,34 @@ def run(ctx):
             dict(name="emit-match-b", module="Glob", tags={"CASE"},
                  cfg=cfg_text("MC_Glob_bnd_b.cfg", inv=["EmitCase"], SPEC="ESpec", Emit='"match"')),
         ]
+    pipeline = None
     if quick:
-        # the single big job gets W workers; the small ones share the remaining cores
-        res = book_jobs(ctx, jobs, exec_jobs(ctx, jobs, 5))
+        # pipelined: the emission runs start first and the replay legs begin as soon as the emission they
+        # need is there, while the design checks and negative controls (which feed no leg) still run;
+        # they are collected -- and any failure raised -- before the verdict (finish_jobs below)
+        prio = {"emit-match": 0, "emit-match-3": 1, "emit-doc": 2, "cache": 3, "find-lts": 4, "emit-memo": 5}
+        jobs.sort(key=lambda j: prio.get(j["name"], 10))
+        timeout = 900
+
+        def one(j):
+            return core.run_tlc(j["module"], j["cfg"], ctx.work, workers=j.get("workers", 1),
+                                want_tags=j.get("tags", set()), timeout=timeout, java_opts=JOPTS)
+
+        pipeline = concurrent.futures.ThreadPoolExecutor(5)
+        futs = {j["name"]: pipeline.submit(one, j) for j in jobs}
+
+        class _Lazy:
+            def __getitem__(self, name):
+                return futs[name].result()
+
+        res = _Lazy()
+
+        def finish_jobs():
+            try:
+                results = [futs[j["name"]].result() for j in jobs]
+            finally:
+                pipeline.shutdown(wait=True)
+            book_jobs(ctx, jobs, results)
     else:
         # big runs one after the other (W workers each); the single-worker runs in a second lane
         bigs = [j for j in jobs if j.get("workers", 1) > 1 and not j.get("small")]
@@ -1057,7 +1150,7 @@ def run(ctx):
                 if mode == "fill":
                     sz.hit_joined(rng, sc, ps)
                 as_direct = not representable(ps)
-                route = rng.choice(["prog", "prog", "prog-set", "prog-set", "text", "lines", "bytes"])
+                route = rng.choice(["prog", "prog", "prog-set", "prog-set", "text", "lines", "bytes", "legacy:%d" % rng.randrange(10 ** 6)])
                 lay = rand_seps(rng, len(sc.patterns(ps)), route in TEXTUAL)
                 if sc.L > 64:
                     hit = [nm for nm in names if nm in mset]
@@ -1082,6 +1175,8 @@ def run(ctx):
                 plan = [("canon", routes[idx % 2]), ("rand", routes[(idx + 1) % 4]), ("case", routes[(idx + 2) % 4])]
             else:
                 plan = [("canon", "prog"), ("rand", routes[idx % 4])]
+            if idx % 8 == 2:        # bytes document with a legacy-encoded line next to non-ASCII UTF-8 patterns
+                plan.append(("uni", "legacy:%d" % rng.randrange(10 ** 6)))
             for kind, route in plan:
                 cmap = conc_map(rng, kind)
                 lay = rand_seps(rng, len(ps), route in TEXTUAL)
@@ -1125,7 +1220,10 @@ def run(ctx):
             stats["unrepresentable_docs"] = stats.get("unrepresentable_docs", 0) + 1
             continue
         n_docs += 1
-        for kind, route in [("canon", droutes[idx % 4]), ("rand", droutes[(idx + 1) % 4])]:
+        dplan = [("canon", droutes[idx % 4]), ("rand", droutes[(idx + 1) % 4])]
+        if idx % 3 == 1:
+            dplan.append(("uni", "legacy:%d" % rng.randrange(10 ** 6)))
+        for kind, route in dplan:
             cmap = conc_map(rng, kind)
             order = []
             for k in range(len(d)):
@@ -1159,7 +1257,7 @@ def run(ctx):
                 sc.pad = sc.pad[:rng.choice([63, 64, 79, 128])]
             positions = sorted(rng.sample(range(1, total + 1), len(d)))
             fillers = sz.filler_paragraphs(rng, total - len(d))
-            route = rng.choice(["prog", "prog-set", "text", "lines", "bytes"])
+            route = rng.choice(["prog", "prog-set", "text", "lines", "bytes", "legacy:%d" % rng.randrange(10 ** 6)])
             lays = [rand_seps(rng, 250, route in TEXTUAL) for _ in range(total)]
             bad = check_size_doc(d, fexp, sc, positions, fillers, route, lays)
             n_finds += len(fexp)
@@ -1216,7 +1314,7 @@ def run(ctx):
         sk = rng.choice(init_keys)
         path = g.walk(rng, sk, 14, weight=lambda x: 2 if x["op"] == "matches" else 1)
         cmap = conc_map(rng, rng.choice(["canon", "rand", "case"]))
-        route = rng.choice(["prog", "text", "prog-set"])
+        route = rng.choice(["prog", "text", "prog-set", "bytes", "legacy:%d" % rng.randrange(10 ** 6)])
         msg = run_cache_path(g.states[sk]["files"], path, cmap, route, bad_lists)
         ctx.case_seen(("cache-walk", w), True)
         n_beh += 1
@@ -1255,7 +1353,7 @@ def run(ctx):
                     steps = [("matches", n2), ("setfiles", b)] + steps
                 path = follow(skey({"files": start, "key": []}), steps)
                 cmap = conc_map(rng, rng.choice(["canon", "rand", "case"]))
-                route = rng.choice(["prog", "text", "prog-set"])
+                route = rng.choice(["prog", "text", "prog-set", "bytes", "legacy:%d" % rng.randrange(10 ** 6)])
                 msg = run_cache_path(start, path, cmap, route, bad_lists)
                 ctx.case_seen(("cache-error-path", bk, skey(lg), rep_), True)
                 n_beh += 1
@@ -1349,7 +1447,9 @@ def run(ctx):
         nonlocal n_fh
         start = gf.states[sk]
         cmap = conc_map(rng, rng.choice(["canon", "rand", "case"]))
-        route = rng.choice(["prog", "text", "lines", "prog-set", "bytes"])
+        route = rng.choice(["prog", "text", "lines", "prog-set", "bytes", "legacy"])
+        if route == "legacy":
+            route, cmap = "legacy:%d" % rng.randrange(10 ** 6), conc_map(rng, "uni")
         order = []
         for k in range(len(start)):
             if rng.random() < 0.2:
@@ -1400,6 +1500,8 @@ def run(ctx):
     if skipped * 20 > ntr:
         raise core.MachineryError("%d of %d histories could not be set up" % (skipped, ntr))
     t_rec = time.time()
+    if pipeline is not None:
+        finish_jobs()
     rejected, info = validate(ctx, traces)
     ctx.extra["phase_wall_s"] = {"tlc_design_and_emission": round(t_tlc - t_start, 1), "replay_match": round(t_match - t_tlc, 1),
                                  "replay_find": round(t_doc - t_match, 1), "replay_cache": round(t_cache - t_doc, 1),
